@@ -58,6 +58,13 @@ class C15(InterpProp):
                         code = getattr(o, attr, None)
                         if code and 'send(' in code and rnd.random() < 0.5:
                             setattr(o, attr, code.replace('b=True', 'b=1').replace('b=False', 'b=0').replace('v=x,', 'v=(x > 0),'))
+                # ... and, in one piece of code, two events that compare equal and are not the same
+                ts = [t for t in sc.transitions if t.event is not None]
+                if ts:
+                    t = rnd.choice(ts)
+                    nm = rnd.choice(gen.EVENTS)
+                    a, b = rnd.choice([('v=1, b=True', 'v=True, b=1'), ('v=0, b=False', 'v=False, b=0'), ('v=1, b=0', 'v=True, b=False')])
+                    t.action = ((t.action + '\n') if t.action else '') + "send('%s', %s)\nsend('%s', %s)" % (nm, a, nm, b)
             charts.append(sc)
             encs.append(ChartEnc(sc))
         ops = [['create', i, False, [], 0] for i in range(n)]
